@@ -15,7 +15,7 @@ from .. import common, instrument as ins, mon1, w1, w2, w5
 from . import _w2case
 
 ID = "C10"
-KNOWN_CEILING = {'k1_guard': 0.01}   # share of all evaluations a known finding may reach before it counts as a violation again
+KNOWN_CEILING = {'k1_guard': 0.01, 'k13_ffn_cagr_zero_length_window': 0.02}   # share of all evaluations a known finding may reach before it counts as a violation again
 LEVEL = "fault_enumeration"
 RULE = ("C10a: every generated well-formed backtest (W2 grammar over the stock algos; flat and nested; all cost models; both position modes) must "
         "finish bt.run and all thirteen report accessors, and every recorded number must be finite (input prices may be NaN only where the position "
@@ -43,11 +43,12 @@ def plan(tier):
     return [dict(unit="w2", n=200 if q else 5000, builds=["py", "so"], case_timeout=180),
             dict(unit="w1", n=400 if q else 15000, builds=["py", "so"], case_timeout=60),
             dict(unit="w5", n=120 if q else 4000, builds=["py", "so"], case_timeout=120),
+            dict(unit="calendars", n=200 if q else 6000, builds=["py"], case_timeout=120),
             dict(unit="faults", n=(len(FAULTS) * 110) if q else (len(FAULTS) * 1500), builds=["py", "so"], case_timeout=60)]
 
 
 def floors(tier):
-    c = {"reports_ok": 2000, "finite_cells": 100000, "w1_ops": 4000, "fi_runs_completed": 150}
+    c = {"reports_ok": 2000, "finite_cells": 100000, "w1_ops": 4000, "fi_runs_completed": 150, "calendar_runs": 150}
     for f in FAULTS:
         c["fault_" + f] = 200
     return {"min_decided": 1500, "counters": c, "max_undecided_frac": 0.2}
@@ -181,6 +182,44 @@ def case_w5(cs):
         return common.result(common.VIOL, sig=sig, nt=True, cnt=cnt, mech="c10_nonfinite", witness=dict(bad, kinds=spec["kinds"], case_seed=cs))
     ntr = len([e for e in run.events if e["k"] == "trade"])
     return common.result(common.HELD, sig=sig, nt=ntr >= 1, cnt=cnt, sample=w5.sample_of(spec))
+
+
+def case_calendar(cs):
+    """increasing unique dates of any spacing (intraday, sparse multi-year, month/quarter/year stamps): a plain backtest completes and reports"""
+    from . import c12
+
+    rng = random.Random(cs)
+    rs = np.random.RandomState(cs % (2 ** 32))
+    ikind, idx = c12.gen_index(rng)
+    data = pd.DataFrame(100 * np.exp(np.cumsum(rs.randn(len(idx), 2) * 0.02, axis=0)), index=idx, columns=["a", "b"])
+    sched = rng.choice([algos.RunDaily, algos.RunWeekly, algos.RunMonthly, algos.RunQuarterly, algos.RunYearly, algos.RunOnce])()
+    s = Strategy("s", [sched, algos.SelectAll(), algos.WeighEqually(), algos.Rebalance()])
+    t = bt.Backtest(s, data, integer_positions=rng.random() < 0.5)
+    sig = ["calendar", ikind, type(sched).__name__]
+    cnt = {"calendar_runs": 1}
+    w = {"index_kind": ikind, "start": str(idx[0]), "end": str(idx[-1]), "n": len(idx), "case_seed": cs}
+    try:
+        with contextlib.redirect_stdout(io.StringIO()), contextlib.redirect_stderr(io.StringIO()):
+            t.run()
+            res = bt.backtest.Result(t)
+            for name, fn in REPORTS:
+                fn(res, t)
+    except ZeroDivisionError as e:
+        import traceback
+
+        tb = traceback.format_exc()
+        if "calc_cagr" in tb or "year_frac" in tb:
+            gap = max((idx[i] - idx[i - 1]).days for i in range(1, len(idx)))
+            return common.result(common.VIOL, sig=sig, nt=True, cnt=cnt, mech="k13_ffn_cagr_zero_length_window", witness=dict(w, largest_gap_days=gap, last_gap_days=(idx[-1] - idx[-2]).days))
+        return common.result(common.VIOL, sig=sig, nt=True, cnt=cnt, mech="c10_run_raises", witness=dict(w, exception=str(e)[:160]))
+    except Exception as e:
+        if common.is_guard_exc(e):
+            return common.result(common.VIOL, sig=sig, nt=True, cnt=cnt, mech="k1_guard", witness=dict(w, exception=str(e)[:160]))
+        return common.result(common.VIOL, sig=sig, nt=True, cnt=cnt, mech="c10_run_raises", witness=dict(w, exception="%s: %s" % (type(e).__name__, str(e)[:160])))
+    bad = nonfinite(t.strategy)
+    if bad:
+        return common.result(common.VIOL, sig=sig, nt=True, cnt=cnt, mech="c10_nonfinite", witness=dict(w, **bad))
+    return common.result(common.HELD, sig=sig, nt=True, cnt=cnt, sample=w)
 
 
 # ------------------------------------------------------------------ C10b
@@ -363,6 +402,8 @@ def case_fault(cs, idx):
         cp = pd.DataFrame(rs.uniform(0, 0.05, size=data.shape), index=dts, columns=tk)
         cp.iloc[k, 0] = np.nan
         var = rng.choice(["backtest", "ops", "swap_at_zero"])
+        if var == "swap_at_zero" and len(tk) < 2:
+            var = "ops"
         if var == "swap_at_zero":
             # a par swap (coupon-paying hedge) marked at exactly 0 on the trade date: open position, zero value, zero weight
             from bt.core import CouponPayingHedgeSecurity
@@ -374,6 +415,7 @@ def case_fault(cs, idx):
             root.setup(d2, coupons=cp)
             root.update(dts[0])
             root.transact(rng.choice([-400, 250]), child="a")
+            root.transact(1000, child=tk[1])        # a notional-bearing holding next to the hedge, so that carry has a base
             for i in range(0, k):
                 root.update(dts[i])
             ok, got = expect(lambda: root.update(dts[k]), Exception, "latest coupon is NaN")
@@ -513,4 +555,6 @@ def run_case(unit, cs, idx, build, params):
         return case_w1(cs)
     if unit == "w5":
         return case_w5(cs)
+    if unit == "calendars":
+        return case_calendar(cs)
     return case_fault(cs, idx)
